@@ -19,8 +19,9 @@ MANIFEST = dict(
           "time To (via f = A - target for every rest list, which uses C14's exact rest decay); it returns 0 exactly "
           "when A(0) <= target (C15_zero_iff_already_below) and df is the derivative of f (C15_df_is_derivative) - "
           "both refuted before commits 0f2a2da/34bcc0c, now proved for the source as it stands, and failing again if "
-          "the source is reverted; the time the property asks for is unique and, over the reals, independent of the "
-          "rest-time list; a Newton step with the true derivative from the left of the root moves towards it and does "
+          "the source is reverted; the time the property asks for exists, is positive and is unique for every target "
+          "in (0, A(0)) (continuity, strict decrease and the limit 0 of the summed activity: C15_time_exists_unique, "
+          "C15_activity_decreasing) and, over the reals, is independent of the rest-time list; a Newton step with the true derivative from the left of the root moves towards it and does "
           "not pass it (convexity).  One full-strength statement remains REFUTED on the faithful model, with witness "
           "(known finding): because exp overflows above 709.78, the answer depends on the rest-time list and an error "
           "other than RuntimeError is raised (1 uCi, half-life 3.6 s, target 2 uCi: rest_times=[2] -> OverflowError, "
